@@ -5,7 +5,7 @@ id=$1; shift
 if ! git -C /repo diff --quiet; then echo "/repo not clean"; exit 2; fi
 git -C /repo apply /verif/seeded/$id/patch.diff || { echo "patch does not apply"; exit 2; }
 for c in "$@"; do
-  ./check $c --tier quick > .cache/logs/seeded_${id}_$c.out 2>&1
+  VERIF_EVIDENCE_DIR=/verif/.cache/evidence_scratch ./check $c --tier quick > .cache/logs/seeded_${id}_$c.out 2>&1
   echo "seeded=$id check=$c rc=$? $(grep '^SUMMARY' .cache/logs/seeded_${id}_$c.out)"
   grep -E '^(VIOLATION|FAILED-OBLIGATION|UNDECIDED)' .cache/logs/seeded_${id}_$c.out | cut -c1-220 | head -6
 done
